@@ -365,7 +365,9 @@ func (n *MsgNode) Children() []Node {
 // Placeholder returns a placeholder node with the given name within this
 // message node.  It requires placeholder names to have been calculated.
 func (n *MsgNode) Placeholder(name string) *MsgPlaceholderNode {
-	var q = n.Body.Children()
+	// copy the children: the work list grows by append and must not spill into
+	// the (shared) tree's backing array.
+	var q = append([]Node(nil), n.Body.Children()...)
 	for len(q) > 0 {
 		var node Node
 		node, q = q[0], q[1:]
